@@ -3,7 +3,10 @@
     case <id> kind=multib op=<Op> var=<variant> n=<sources> outer=<C|E<k>|-> key=<cb> delay=<d>
               srcs=<script>;<script>;… order=<i>,<i>,…
   Result: delivered trace (inner observables rendered as what their recorder received), refused
-  notifications (sorted), per-source released flags and subscription counts.
+  notifications (sorted), per-source released flags and subscription counts; and, on the model side
+  only, `spec=` (what Spec.* assigns to the arrivals of this case) and `known=` (the known-deviation
+  classes of RoModel/Spec/MultiB.lean `Known.*` the case falls in), which the check uses to compare
+  the implementation with the specification directly.
 -/
 import RoModel.DriverCore
 import RoModel.MultiB.CombineLatest
@@ -11,6 +14,7 @@ import RoModel.MultiB.Concat
 import RoModel.MultiB.BufferWhen
 import RoModel.MultiB.WindowWhen
 import RoModel.MultiB.GroupBy
+import RoModel.Spec.MultiB
 namespace Ro.Driver.Drivers.MultiB
 open Ro Ro.Driver Ro.MultiB
 
@@ -63,27 +67,42 @@ def keyFn (name : String) : Option (Int → Nat → Int) :=
   | some f => some (fun v _ => f v)
   | none => unaryI name
 
+def renderTrace {γ : Type} (f : γ → String) (l : List (Ev γ)) : String := joinOrDash (l.map (renderEv f))
+
+def knownList (l : List (String × Bool)) : String := joinOrDash ((l.filter (·.2)).map (·.1))
+
 def run (c : Case) : String :=
   let n := ((c.getD "n" "2").toNat?).getD 2
   let order := (parseInts (c.getD "order" "-")).map Int.toNat
   match parseScripts (c.getD "srcs" ""), parseOuter (c.getD "outer" "C") with
   | some scripts, some outer =>
+    let arr := arrivals (scriptsFn scripts) order
     let body : Option String :=
       match c.getD "op" "?" with
-      | "Zip" => some (plain (zipM n) renderTuple scripts order)
-      | "ZipAll" => some (plain (zipAllM n outer) renderSlice scripts order)
-      | "CombineLatest" => some (plain (combineLatestM n) renderTuple scripts order)
-      | "CombineLatestAll" => some (plain (combineLatestAllM n outer) renderSlice scripts order)
-      | "ConcatAll" => some (plain (concatM n outer) renderInt scripts order)
-      | "BufferWhen" => some (plain bufferWhenM renderSlice scripts order)
+      | "Zip" => some (plain (zipM n) renderTuple scripts order
+          ++ s!" spec={renderTrace renderTuple (Spec.zip n arr)} known={knownList [("zipCompleteUnsub", Known.zipCompleteUnsub n [] 0 arr)]}")
+      | "ZipAll" => some (plain (zipAllM n outer) renderSlice scripts order
+          ++ s!" spec={renderTrace renderSlice (Spec.zipAll n outer arr)} known={knownList [("zipAllOuterCompletes", Known.zipAllOuterCompletes n outer)]}")
+      | "CombineLatest" => some (plain (combineLatestM n) renderTuple scripts order
+          ++ s!" spec={renderTrace renderTuple (Spec.combineLatest n arr)} known=-")
+      | "CombineLatestAll" => some (plain (combineLatestAllM n outer) renderSlice scripts order
+          ++ s!" spec={renderTrace renderSlice (Spec.combineLatestAll n outer arr)} known=-")
+      | "ConcatAll" =>
+        let specSubs := (List.range n).map (fun j => if Spec.concatSubscribed n arr j then "1" else "0")
+        some (plain (concatM n outer) renderInt scripts order
+          ++ s!" spec={renderTrace renderInt (Spec.concat n outer arr)} specsubs={joinOrDash specSubs} known={knownList [("concatInnerError", Known.concatInnerError n arr)]}")
+      | "BufferWhen" => some (plain bufferWhenM renderSlice scripts order
+          ++ s!" spec={renderTrace renderSlice (Spec.bufferWhen arr)} known=-")
       | "WindowWhen" =>
         let r := Ro.MultiB.run (windowWhenM (α := Int)) scripts order
-        some (result 2 r (joinOrDash ((viewOut r.m.wins r.out).map (renderEv renderInner))) toString)
+        some (result 2 r (renderTrace renderInner (viewOut r.m.wins r.out)) toString
+          ++ s!" spec={renderTrace renderInner (Spec.windowWhen arr)} known=-")
       | "GroupBy" =>
         (keyFn (c.getD "key" "mod2")).map (fun key =>
           let delay := ((c.getD "delay" "0").toNat?).getD 0
           let r := Ro.MultiB.run (groupByM key delay) scripts order
-          result 1 r (joinOrDash ((viewOut (r.m.groups.map (·.2)) r.out).map (renderEv renderInner))) toString)
+          result 1 r (renderTrace renderInner (viewOut (r.m.groups.map (·.2)) r.out)) toString
+            ++ s!" spec={renderTrace renderInner (Spec.groupBy key arr)} known={knownList [("groupByLate", Known.groupByLate delay arr), ("groupByErrorCompletesGroups", Known.groupByErrorCompletesGroups arr)]}")
       | _ => none
     match body with
     | some b => s!"res {c.id} {b}"
